@@ -54,14 +54,14 @@ impl FromStr for GameState {
             .collect();
         let regex = regex::Regex::new(r"^\s*(\d+)([gswb])").unwrap();
 
-        let (move_number, p1_turn_to_move) = regex
-            .captures(s.split('|').find(|_| true).unwrap())
-            .map_or((2, true), |c| {
-                (
-                    c.get(1).unwrap().as_str().parse().unwrap(),
+        let (move_number, p1_turn_to_move) =
+            match regex.captures(s.split('|').find(|_| true).unwrap()) {
+                Some(c) => (
+                    c.get(1).unwrap().as_str().parse()?,
                     c.get(2).unwrap().as_str() != "s" && c.get(2).unwrap().as_str() != "b",
-                )
-            });
+                ),
+                None => (2, true),
+            };
 
         let mut p1_pieces = 0;
         let mut elephants = 0;
@@ -82,6 +82,9 @@ impl FromStr for GameState {
                 let idx = (row_idx * BOARD_WIDTH + col_idx) as u8;
                 let square = Square::from_index(idx);
                 if let Some((piece, is_p1)) = convert_char_to_piece(charr) {
+                    if row_idx >= BOARD_HEIGHT || col_idx >= BOARD_WIDTH {
+                        return Err(anyhow::anyhow!("Piece outside of the board"));
+                    }
                     let square_bit = square.as_bit_board();
 
                     match piece {
